@@ -178,7 +178,11 @@ def s_FunctionDef(I, st, env):
 
 
 def s_Delete(I, st, env):
-    raise Unsupported("del")
+    for t in st.targets:
+        if isinstance(t, ast.Name) and env.has(t.id):
+            env.set(t.id, _UNBOUND)
+        else:
+            raise Unsupported("del " + ast.unparse(t)[:40])
 
 
 def s_With(I, st, env):
@@ -280,7 +284,7 @@ def loop_ordinal(I: Interp, st):
 
 def s_For(I, st, env):
     ordn = loop_ordinal(I, st)
-    spec = I.V.loop_spec(I.frame.qual, ordn)
+    spec = I.V.loop_spec(I.frame.qual, ordn, I.frame.loops)
     it = I.eval(st.iter, env)
     if spec is not None and spec.elem_ty and not isinstance(it, (SList, PyList)):
         it = PyList(I.concrete_iter(it))
@@ -374,7 +378,7 @@ def opaque_loop(I, st, env):
 
 def s_While(I, st, env):
     ordn = loop_ordinal(I, st)
-    spec = I.V.loop_spec(I.frame.qual, ordn)
+    spec = I.V.loop_spec(I.frame.qual, ordn, I.frame.loops)
     if spec is None:
         # bounded concrete execution is not allowed silently: only loops whose guard stays concrete
         n = 0
